@@ -68,6 +68,10 @@
 (*   unguardedIndexDelete  (round 4) deleteCascade holds the delete claim and has re-read the record, but no longer reads  *)
 (*                  the index entry before deleting it (D_iget / R_iget skipped): the RETRY of a delete that failed after  *)
 (*                  its index delete wipes the entry of the client that claimed the freed name meanwhile                   *)
+(*   updateRelabelsDomain  (round 5) UpdateMapping's immutable-field check lacks the full-domain term: an update whose only    *)
+(*                  changed field is FullDomain is stored; the cascade of the owner's delete then keys the index on the     *)
+(*                  new label, its "still names me" guard skips it, and the real index entry dangles for ever               *)
+(*   updateMovesClient     the same for the client-id term: the record (and the routing) moves to another client            *)
 (*   updateHeals    UpdateMapping re-creates a missing index entry (SetNX) after its write - the update    *)
 (*                  twin of listHeals: racing the owner's delete it leaves an index entry for ever         *)
 EXTENDS Naturals, Sequences, FiniteSets, TLC, Json
@@ -100,6 +104,10 @@ CONSTANTS ProcsC1, ProcsC2,  \* API-call processes acting with the proven identi
                              \*       fails the mapping is deleted again (DeleteMapping) and the create FAILS; FALSE: the failure is
                              \*       only logged and the create is acknowledged with an expires_at that was never stored
                              \*       (deviation unstoredExpiry)
+          UpdFields,         \* which field of the record an UpdateMapping call changes (one per call): subset of
+                             \*   {"inactive", "expired"} (status / expiry), "target", "desc", "created" (mutable resp. unchecked: the record's
+                             \*   identity is unchanged), "client", "sub", "base", "full" (immutable: the call is refused); "sub" and "full"
+                             \*   take the value of ANOTHER name of Names, "client" the other client
           LegStatus,         \* statuses a legacy mapping may be created with: subset of {"active", "inactive", "expired", "revoked"}
           DelFaults,         \* TRUE: the one failing storage operation may be ANY operation of the repaired DeleteMapping
                              \*       (reads, the claim, the list removal, the release), not only its two deletes
@@ -201,11 +209,13 @@ CallDelete(p, i) ==
   /\ snap' = snap
   /\ Log(CallSt(p, "Call", "Delete", Cl(p), "-", i, "-", "-"))
 
-CallUpdate(p, i, s) ==     \* only the owner's side ever updates (expiry / status); no client-facing path
+CallUpdate(p, i, s, n) ==     \* only the owner's side ever updates; no client-facing path. s = the changed field, n = its new value (a name)
   /\ p \in CProcs \ (OnlyCreate \cup OnlyDelete \cup OnlyList) /\ done[p] < MaxOps /\ "Update" \in Kinds /\ i \in okc /\ meta[i].c = Cl(p)
-  /\ Call(p, [NoCur EXCEPT !.op = "Update", !.id = i, !.st = s], "U_get")
+  /\ s \in UpdFields
+  /\ IF s \in {"full", "sub"} THEN n \in Names \ {meta[i].n} ELSE n = "-"
+  /\ Call(p, [NoCur EXCEPT !.op = "Update", !.id = i, !.st = s, !.n = n], "U_get")
   /\ snap' = snap
-  /\ Log(CallSt(p, "Call", "Update", Cl(p), "-", i, s, "-"))
+  /\ Log(CallSt(p, "Call", "Update", Cl(p), n, i, s, "-"))
 
 CallList(p) ==       \* the client lists its own mappings
   /\ p \in CProcs \ (OnlyCreate \cup OnlyDelete) /\ done[p] < MaxOps /\ "List" \in Kinds
@@ -507,18 +517,30 @@ RUnlock(p) ==
   /\ Log(St(p, "RbUnlock", FALSE, "fail"))
 
 \* ---- UpdateMapping ----------------------------------------------------------------------------
+\* the immutable-field check follows the read without a storage operation in between: subdomain, base domain, full domain
+\* and client id must equal the stored ones, else the call is refused and nothing is written.
+\* Deviations updateRelabelsDomain / updateMovesClient: the full-domain resp. client term of that check is missing.
+UpdRefused(s) == \/ s \in {"sub", "base"}
+                 \/ s = "full" /\ "updateRelabelsDomain" \notin Deviate
+                 \/ s = "client" /\ "updateMovesClient" \notin Deviate
 UGet(p) ==
   /\ pc[p] = "U_get"
-  /\ IF Has(rec[cur[p].id])
-     THEN tmp' = [tmp EXCEPT ![p] = rec[cur[p].id]] /\ Goto(p, "U_set") /\ Log(St(p, "UpdGet", FALSE, "-"))
-     ELSE tmp' = tmp /\ Return(p) /\ Log(St(p, "UpdGet", FALSE, "fail"))
+  /\ IF ~Has(rec[cur[p].id]) THEN tmp' = tmp /\ Return(p) /\ Log(St(p, "UpdGet", FALSE, "fail"))
+     ELSE IF UpdRefused(cur[p].st) THEN tmp' = tmp /\ Return(p) /\ Log(St(p, "UpdGet", FALSE, "fail"))
+     ELSE tmp' = [tmp EXCEPT ![p] = rec[cur[p].id]] /\ Goto(p, "U_set") /\ Log(St(p, "UpdGet", FALSE, "-"))
   /\ UNCHANGED <<cur, fault>> /\ U_store /\ U_leg /\ U_ghost
 
+UpdRec(p) == LET s == cur[p].st IN
+  CASE s \in {"inactive", "expired"} -> [tmp[p] EXCEPT !.st = s]
+    [] s = "full" -> [tmp[p] EXCEPT !.n = cur[p].n, !.k = cur[p].n]                       \* deviation: the record now carries another name
+    [] s = "client" -> [tmp[p] EXCEPT !.c = IF tmp[p].c = "c1" THEN "c2" ELSE "c1"]       \* deviation: ... another client
+    [] OTHER -> tmp[p]                                                                    \* target / description / created-at
 USet(p) ==
   /\ pc[p] = "U_set"
-  /\ rec' = [rec EXCEPT ![cur[p].id] = [tmp[p] EXCEPT !.st = cur[p].st]]
-  /\ dev' = IF ~Has(rec[cur[p].id]) THEN dev \cup {"resurrect"} ELSE dev
-  /\ inact' = inact \cup {cur[p].id}
+  /\ rec' = [rec EXCEPT ![cur[p].id] = UpdRec(p)]
+  /\ dev' = dev \cup (IF ~Has(rec[cur[p].id]) THEN {"resurrect"} ELSE {})
+                 \cup (IF cur[p].st \in {"full", "client"} THEN {"updateRelabels"} ELSE {})
+  /\ inact' = IF cur[p].st \in {"inactive", "expired"} THEN inact \cup {cur[p].id} ELSE inact
   /\ IF "updateHeals" \in Deviate THEN Goto(p, "U_heal") /\ Log(St(p, "UpdSet", FALSE, "-"))
                                     ELSE Return(p) /\ Log(St(p, "UpdSet", FALSE, "ok"))
   /\ UNCHANGED <<nextId, index, clist, dlock, cur, tmp, fault, okc, failc, deld, delok, meta, snap, bad>> /\ U_leg
@@ -724,7 +746,7 @@ LegDelete(n, here) ==
 
 Next == \/ \E p \in CProcs : \/ \E n \in Names, sp \in Spell : CallCreate(p, n, sp)
                              \/ \E i \in Ids : CallDelete(p, i)
-                             \/ \E i \in Ids, s \in {"inactive", "expired"} : CallUpdate(p, i, s)
+                             \/ \E i \in Ids, s \in UpdFields, n \in Names \cup {"-"} : CallUpdate(p, i, s, n)
                              \/ CallList(p) \/ GList(p) \/ GRec(p) \/ GPrune(p) \/ GHeal(p) \/ GFault(p) \/ CFault(p) \/ CFaultNx(p) \/ CFaultTTL(p)
                              \/ CPre(p) \/ CId(p) \/ CNx(p) \/ CRec(p) \/ CList(p) \/ CRbRec(p) \/ CRbIdx(p)
                              \/ CUGet(p) \/ CUSet(p)
@@ -772,7 +794,9 @@ LegacyInactiveRejects == "routeInactiveLegacy" \notin bad
 LookupPure == "lookupWrites" \notin dev
 \* (3d) a listing claims nothing and drops no live mapping from its owner's list; an update claims nothing
 ListPure == dev \cap {"listWrites", "listDropsLive"} = {}
-UpdateClaimsNothing == "updateWrites" \notin dev
+UpdateClaimsNothing == dev \cap {"updateWrites", "updateRelabels"} = {}
+\* (3e) whatever is updated, a record keeps the name and the client it was created with (an update never changes who owns which name)
+UpdateKeepsIdentity == \A i \in Ids : Has(rec[i]) => (rec[i].n = meta[i].n /\ rec[i].c = meta[i].c)
 \* (6) an acknowledged create has stored the expiry time its response acknowledges (else the mapping outlives it for ever)
 ExpiryStored == "unstoredExpiry" \notin dev
 
